@@ -771,6 +771,16 @@ theorem Means.let1 {σ ρ nm te be l₁ l₂ tv σ₁ v τ} (ht : Means σ ρ te
     Means σ ρ (.call (.lambda (.mk ⟨[nm], none⟩ [] [be]) l₁) [te] l₂) v τ :=
   Means.lambda_call (MeansList.one ht) (.one hb) rfl
 
+/-- literals and variable references -/
+def isAtom : Datum → Bool
+  | .prim _ _ | .sym _ _ => true
+  | _ => false
+
+theorem noDefs_atoms {env : SynEnv} {bs : List Datum} (h : bs.all isAtom = true) : NoDefs env bs := by
+  intro b hb m df env'
+  have := List.all_eq_true.mp h b hb
+  cases b <;> first | exact not_def_prim m df env' | exact not_def_sym m df env' | cases this
+
 /-- the syntax environment has the bundled derived forms, and the names the templates use as
 procedures (`not`, `memv`, `null?`) are not keywords of macros -/
 structure StdSyn (env : SynEnv) : Prop where
